@@ -28,6 +28,10 @@ func registerMore(m map[string]propSpec) {
 		{Harness: "reg", Overlay: "base", Name: "stalls", Shards: 4},
 		{Harness: "reg", Overlay: "base", Name: "socket"},
 	}}
+	m["C16"] = propSpec{Level: "fault_enumeration", Engines: []engine{
+		{Harness: "stublife", Overlay: "base", Name: "cuts", Shards: 8},
+		{Harness: "stublife", Overlay: "base", Name: "histories", Shards: 8},
+	}}
 	m["C06"] = propSpec{Level: "model_checking", Engines: []engine{
 		{Harness: "adapt", Overlay: "base", Name: "masks"},
 		{Harness: "adapt", Overlay: "base", Name: "order"},
